@@ -16,8 +16,8 @@ from mc.engine import e2
 from mc.engine.core import Collector, Result, Violation
 
 PLAN = {
-    "quick": [("D1", 2), ("D2", 2), ("C1", 3), ("L1", 2), ("G1", 3), ("M1", 2), ("M2", 3), ("M3", 2), ("D3", 2), ("C2", 3), ("M5", 3)],
-    "thorough": [("D1", 3), ("D2", 3), ("C1", 4), ("L1", 3), ("G1", 4), ("M1", 3), ("M2", 4), ("M3", 3), ("D3", 3), ("C2", 4), ("M5", 4)],
+    "quick": [("D1", 2), ("D2", 2), ("C1", 3), ("L1", 2), ("G1", 3), ("M1", 2), ("M2", 3), ("M3", 2), ("D3", 2), ("C2", 3), ("M5", 3), ("M6", 3), ("RG", 2), ("RC", 3), ("RF", 2)],
+    "thorough": [("D1", 3), ("D2", 3), ("C1", 4), ("L1", 3), ("G1", 4), ("M1", 3), ("M2", 4), ("M3", 3), ("D3", 3), ("C2", 4), ("M5", 4), ("M6", 4), ("RG", 3), ("RC", 4), ("RF", 3)],
 }
 
 DF_KINDS = ("dfg", "func", "case", "loop", "block")
@@ -150,6 +150,25 @@ def faults(ctx):
     if ctx.funcs:
         out.append(("function-port-as-wire", {"Exception"}, lambda c2: c2.top.b.add_op(ops.Noop(), c2.funcs[0]["node"].out(0))))
         out.append(("function-port-as-output", {"Exception"}, lambda c2: c2.top.b.set_outputs(c2.funcs[0]["node"].out(0))) if top.kind == "dfg" else ("function-port-as-wire:tuple", {"Exception"}, lambda c2: c2.top.b.add_op(ops.MakeTuple(), c2.funcs[0]["node"].out(0))))
+    if ctx.funcs:
+        from hugr import tys as _tys
+        from hugr.std.logic import Not as _Not
+
+        fport = lambda c2: c2.funcs[0]["node"].out(0)  # noqa: E731
+        out.append(("function-port-as-wire:fixed-signature-op", {"Exception"}, lambda c2: c2.top.b.add_op(_Not, fport(c2))))
+        out.append(("function-port-as-wire:tag", {"Exception"}, lambda c2: c2.top.b.add_op(ops.Tag(0, _tys.Sum([[_tys.Bool], []])), fport(c2))))
+        out.append(("function-port-as-wire:insert-input", {"Exception"}, lambda c2: c2.top.b.insert_nested(bpm._frag_dfg(), fport(c2))))
+        callable_f = next((f for f in ctx.funcs if f["out"] is not None and not f["params"] and len(f["in"]) == 1), None)
+        if callable_f is not None:
+            fi = ctx.funcs.index(callable_f)
+            out.append(("function-port-as-wire:call-argument", {"Exception"}, lambda c2, fi=fi: c2.top.b.call(c2.funcs[fi]["node"], fport(c2))))
+    if "const" in ctx.features:
+        def const_port(c2):
+            return next(n for n in c2.hugr if isinstance(c2.hugr[n].op, ops.Const)).out(0)
+
+        from hugr.std.logic import Not as _Not2
+
+        out.append(("const-port-as-wire:fixed-signature-op", {"Exception"}, lambda c2: c2.top.b.add_op(_Not2, const_port(c2))))
     if "const" in ctx.features:
         def f7c(c2):
             cn = next(n for n in c2.hugr if isinstance(c2.hugr[n].op, ops.Const))
